@@ -23,6 +23,7 @@ import (
 	"time"
 
 	"github.com/skycoin/skycoin/src/cipher"
+	secp256k1 "github.com/skycoin/skycoin/src/cipher/secp256k1-go"
 
 	"verif/lib/refbip"
 	"verif/lib/refsecp"
@@ -229,6 +230,20 @@ func checkSecKey(class, group string, v *big.Int, otherPub cipher.PubKey) {
 		}
 		if guard("AddressFromSecKey", "scalar:"+group, in, func() { _, e2 = cipher.AddressFromSecKey(sk) }) && e2 == nil {
 			mismatch("accepted-invalid", "AddressFromSecKey", "scalar:"+class, in, "")
+		}
+		// the package underneath is public API too: its shared-secret and validity entry points
+		// refuse the scalar themselves (nil / not-valid answers), whatever their callers in cipher
+		// check beforehand (PubkeyFromSeckey documents that the caller validates: not called)
+		if len(raw) == 32 {
+			var out []byte
+			var ok int
+			if guard("secp256k1.ECDH", "scalar:"+group, in, func() { out = secp256k1.ECDH(otherPub[:], raw) }) && out != nil {
+				mismatch("accepted-invalid", "secp256k1.ECDH", "scalar:"+class, in, "returned "+hx(out))
+			}
+			if guard("secp256k1.VerifySeckey", "scalar:"+group, in, func() { ok = secp256k1.VerifySeckey(raw) }) && ok == 1 {
+				mismatch("accepted-invalid", "secp256k1.VerifySeckey", "scalar:"+class, in, "")
+			}
+			r.Count("seckey.invalid.lower-level-entry-points", 1)
 		}
 		return
 	}
@@ -1285,6 +1300,15 @@ func legECDH() {
 					r.Count("ecdh.agree", 1)
 					r.Count("ecdh.agree:"+class, 1)
 				}
+				var low []byte
+				if guard("secp256k1.ECDH", "ecdh:"+class, in, func() { low = secp256k1.ECDH(pb, SA[:]) }) {
+					// cipher.ECDH is the SHA-256 of the compressed product point
+					if h := cipher.SumSHA256(low); low == nil || !bytes.Equal(h[:], want) {
+						mismatch("value-mismatch", "secp256k1.ECDH", "ecdh:"+class, in, "got "+hx(low)+" want "+hx(want))
+					} else {
+						r.Count("ecdh.lower-level.agree", 1)
+					}
+				}
 			}
 			return
 		}
@@ -1499,6 +1523,7 @@ func main() {
 	r.Floor("scalar.boundary.hit:2^k-1", 254)
 	r.Floor("scalar.boundary.hit:invalid", 8)
 	r.Floor("seckey.valid.agree:edge", 13)
+	r.Floor("seckey.invalid.lower-level-entry-points", 100)
 	r.Floor("seckey.valid.agree:2^k", 256)
 	r.Floor("seckey.valid.agree:2^k-1", 254)
 	fl("seckey.valid.agree:random", 800, 20000)
